@@ -417,6 +417,11 @@ func (c *tblCase) maint(op string) {
 		c.deferred = append(c.deferred, op)
 		return
 	}
+	c.maintNoDefer(op)
+}
+
+// maintNoDefer performs the operation even if its publication has to wait (it then blocks, as a real goroutine does).
+func (c *tblCase) maintNoDefer(op string) {
 	switch {
 	case op == "b":
 		c.next++
@@ -432,6 +437,70 @@ func (c *tblCase) maint(op string) {
 	if !c.t.Settle() {
 		panic("asynchronous part removal did not settle")
 	}
+}
+
+// fenced is what the trace export offers to stage a publication that is queued on the publication fence.
+type fenced interface {
+	HoldFence()
+	ReleaseFence()
+	PublicationQueued() bool
+}
+
+// snapshotQueued handles `sq=<op>` (trace): a reader (a two-phase query) holds the publication fence shared, the
+// publication of <op> (introduce / flush / merge) is queued behind it, the snapshot request lands, then the reader
+// finishes. Go's RWMutex serves the queued writer first, so the snapshot must describe the state after <op> - or at
+// any rate ONE state: its index parts must be those of its core parts.
+func (c *tblCase) snapshotQueued(tok string) string {
+	op := strings.TrimPrefix(tok, "sq=")
+	f, ok := c.t.(fenced)
+	if !ok {
+		c.maint(op)
+		return c.snapshot("s")
+	}
+	f.HoldFence()
+	held := true
+	release := func() {
+		if held {
+			held = false
+			f.ReleaseFence()
+		}
+	}
+	defer release()
+	opDone := make(chan string, 1)
+	go func() { opDone <- drv.Safe(func() string { c.maintNoDefer(op); return "" }) }()
+	queued := false
+	deadline := time.Now().Add(30 * time.Second)
+	for !queued {
+		select {
+		case r := <-opDone:
+			// the operation published nothing (e.g. a flush without in-memory parts): plain snapshot
+			if r != "" {
+				panic(r)
+			}
+			release()
+			return c.snapshot("s")
+		default:
+		}
+		if f.PublicationQueued() {
+			queued = true
+		} else if time.Now().After(deadline) {
+			panic("publication did not queue on the fence")
+		} else {
+			time.Sleep(200 * time.Microsecond)
+		}
+	}
+	snapDone := make(chan string, 1)
+	go func() { snapDone <- drv.Safe(func() string { return c.snapshot("s") }) }()
+	time.Sleep(40 * time.Millisecond) // let the snapshot request reach the fence
+	release()
+	if r := <-opDone; r != "" {
+		panic(r)
+	}
+	out := <-snapDone
+	if !c.t.Settle() {
+		panic("asynchronous part removal did not settle")
+	}
+	return out
 }
 
 func (c *tblCase) snapshot(tok string) string {
@@ -505,6 +574,10 @@ func runTbl(e engine, ops []string) string {
 	defer c.t.Close()
 	var recs []string
 	for _, op := range ops {
+		if strings.HasPrefix(op, "sq=") {
+			recs = append(recs, c.snapshotQueued(op))
+			continue
+		}
 		if strings.HasPrefix(op, "s") {
 			recs = append(recs, c.snapshot(op))
 			continue
@@ -552,7 +625,7 @@ func digit(b byte) int {
 
 func (c *dbCase) settleAll() {
 	for d := 0; d < 4; d++ {
-		for h := 0; h < 2; h++ {
+		for h := 0; h < 3; h++ {
 			if t := c.db.Table(daySuffix(d), h); t != nil && !t.Settle() {
 				panic("asynchronous part removal did not settle")
 			}
@@ -738,11 +811,19 @@ func (c *dbCase) snapshot(tok string) string {
 	direct := queryCopy(dst)
 	out += " " + direct
 	// the same copy through the real backup upload loop and restore download loop (plain file-tree copies)
+	// Every snapshot of a case is uploaded into the SAME remote time-dir, as successive backups of one day are: the
+	// second and later uploads are incremental (unchanged files are kept, files of older snapshots are orphans).
+	// The restored tree must be the tree of the snapshot just uploaded, and open to the same content.
 	out += " bk=" + drv.Safe(func() string {
-		remote := filepath.Join(c.dir, fmt.Sprintf("remote%d", c.snapN))
+		remote := filepath.Join(c.dir, "remote")
 		root := filepath.Join(c.dir, fmt.Sprintf("restore%d", c.snapN))
+		want := listFiles(dst)
 		if berr := backup.VerifBackupRestore(dst, remote, root, "measure"); berr != nil {
 			return "err"
+		}
+		got := listFiles(filepath.Join(root, "measure", "data"))
+		if missing, extra := diffLists(want, got); missing+extra > 0 {
+			return fmt.Sprintf("files:missing%d,extra%d", missing, extra)
 		}
 		restored := queryCopy(filepath.Join(root, "measure", "data"))
 		if dropEmpty(restored) == dropEmpty(direct) {
@@ -753,10 +834,45 @@ func (c *dbCase) snapshot(tok string) string {
 	return out
 }
 
+// listFiles lists the regular files under root (relative paths, sorted).
+func listFiles(root string) []string {
+	var out []string
+	_ = filepath.Walk(root, func(p string, info os.FileInfo, err error) error {
+		if err == nil && !info.IsDir() {
+			if rel, rerr := filepath.Rel(root, p); rerr == nil {
+				out = append(out, filepath.ToSlash(rel))
+			}
+		}
+		return nil
+	})
+	sort.Strings(out)
+	return out
+}
+
+func diffLists(want, got []string) (missing, extra int) {
+	w := map[string]bool{}
+	for _, x := range want {
+		w[x] = true
+	}
+	g := map[string]bool{}
+	for _, x := range got {
+		g[x] = true
+		if !w[x] {
+			extra++
+		}
+	}
+	for _, x := range want {
+		if !g[x] {
+			missing++
+		}
+	}
+	return missing, extra
+}
+
 // queryCopy opens a database directory with the real OpenTSDB and queries every table.
 func queryCopy(dir string) string {
 	return drv.Safe(func() string {
-		cp, oerr := measure.VerifOpenDB(dir, 2, nil)
+		cp, oerr := measure.VerifOpenDB(dir, 3, nil)
 		if oerr != nil {
 			return "open=err"
 		}
@@ -771,7 +887,7 @@ func queryCopy(dir string) string {
 				qs = append(qs, fmt.Sprintf("%d:holderr", d))
 				continue
 			}
-			for h := 0; h < 2; h++ {
+			for h := 0; h < 3; h++ {
 				t := cp.Table(daySuffix(d), h)
 				if t == nil {
 					continue
@@ -823,7 +939,7 @@ func runDB(ops []string) string {
 	}
 	defer os.RemoveAll(dir)
 	hs := &hookState{failAt: -1}
-	db, err := measure.VerifOpenDB(filepath.Join(dir, "data"), 2, func(f fs.FileSystem) fs.FileSystem {
+	db, err := measure.VerifOpenDB(filepath.Join(dir, "data"), 3, func(f fs.FileSystem) fs.FileSystem {
 		return &hookFS{FileSystem: f, st: hs}
 	})
 	if err != nil {
@@ -851,7 +967,7 @@ func runDB(ops []string) string {
 	// final view of the source: every live table's content (nothing may have been disturbed)
 	var qs []string
 	for d := 0; d < 4; d++ {
-		for h := 0; h < 2; h++ {
+		for h := 0; h < 3; h++ {
 			t := c.db.Table(daySuffix(d), h)
 			if t == nil {
 				continue
